@@ -153,6 +153,14 @@ pub fn set_memory_usage(usage: u64) {
     CURRENT_MEMORY.store(usage, Ordering::SeqCst)
 }
 
+/// Injection of collected readings for verification tooling (`verif_hooks` feature only).
+#[cfg(feature = "verif_hooks")]
+pub fn verif_set_readings(load: f64, cpu: f32, memory: u64) {
+    *CURRENT_LOAD.lock().unwrap() = load;
+    *CURRENT_CPU.lock().unwrap() = cpu;
+    CURRENT_MEMORY.store(memory, Ordering::SeqCst);
+}
+
 #[cfg(test)]
 mod test {
     use super::*;
